@@ -296,4 +296,35 @@ theorem viewOf_head (al : List α) (s e : Nat) (_hse : s ≤ e) (he : e = al.len
   · simp [h]; omega
   · simp [h]
 
+/-- the length a handle reports is the length of what it holds (for handles that satisfy the invariant) -/
+theorem lenOf_eq_length {allocs : List (List α)} {hd : Handle} (hk : HandleOK allocs hd) :
+    lenOf allocs hd = (contents allocs hd).length := by
+  unfold lenOf contents
+  cases hv : hd.view with
+  | none => rfl
+  | some se =>
+    obtain ⟨s, e⟩ := se
+    obtain ⟨hse, he⟩ := hk.2 s e hv
+    simp only [List.length_take, List.length_drop]
+    omega
+
+theorem zip_all_eq_seqEq (beq : α → α → Bool) :
+    ∀ (xs ys : List α), xs.length = ys.length →
+      (xs.zip ys).all (fun p => beq p.1 p.2) = seqEq beq xs ys
+  | [], [], _ => rfl
+  | x :: xs, y :: ys, h => by
+    have h' : xs.length = ys.length := by simpa using h
+    simp [seqEq, zip_all_eq_seqEq beq xs ys h']
+  | [], _ :: _, h => by simp at h
+  | _ :: _, [], h => by simp at h
+
+theorem seqEq_length {beq : α → α → Bool} :
+    ∀ {xs ys : List α}, seqEq beq xs ys = true → xs.length = ys.length
+  | [], [], _ => rfl
+  | x :: xs, y :: ys, h => by
+    simp only [seqEq, Bool.and_eq_true] at h
+    simp [seqEq_length h.2]
+  | [], _ :: _, h => by simp [seqEq] at h
+  | _ :: _, [], h => by simp [seqEq] at h
+
 end NumbatModel.ListM
